@@ -187,16 +187,19 @@ def tree_program(draw, max_nodes=12, ragged=False, value_strategy=None, allow_ta
             parts.append(draw(seg()) + str(counter[0]))
         return ".".join(parts)
 
-    def emit(indent, depth):
+    def emit(indent, depth, parent_path=None):
         while budget[0] > 0:
             budget[0] -= 1
             is_group = draw(st.integers(0, 3)) == 0
+            nm = name()
+            if parent_path and draw(st.integers(0, 5)) == 0:
+                nm = parent_path + "." + nm      # a child may legally repeat its parent's path: it is still a child
             if is_group:
-                line = {"k": "group", "indent": indent, "name": name(), "comment": draw(st.sampled_from(COMMENTS))}
+                line = {"k": "group", "indent": indent, "name": nm, "comment": draw(st.sampled_from(COMMENTS))}
                 can_child = True
             else:
                 t, v, u = draw(value_strategy) if value_strategy is not None else draw(typed_value(allow_table))
-                line = {"k": "def", "indent": indent, "name": name(), "type": t, "dim": v.get("dim"), "val": v, "unit": u,
+                line = {"k": "def", "indent": indent, "name": nm, "type": t, "dim": v.get("dim"), "val": v, "unit": u,
                         "comment": draw(st.sampled_from(COMMENTS))}
                 can_child = v["form"] != "table"
             lines.append(line)
@@ -204,7 +207,7 @@ def tree_program(draw, max_nodes=12, ragged=False, value_strategy=None, allow_ta
                 lines.append({"k": "blank"} if draw(st.booleans()) else
                              {"k": "comment", "indent": draw(st.integers(0, 8)), "text": draw(st.sampled_from(COMMENTS[3:]))})
             if can_child and depth < 4 and budget[0] > 0 and draw(st.integers(0, 2)) == 0:
-                emit(indent + draw(st.integers(1, 4)), depth + 1)
+                emit(indent + draw(st.integers(1, 4)), depth + 1, (parent_path + "." if parent_path else "") + nm)
             if depth > 0 and draw(st.integers(0, 2)) == 0:
                 return
     emit(draw(st.sampled_from([0, 0, 0, 2])), 0)
